@@ -16,6 +16,9 @@ run_one() {
   res="${res%,}}"
   echo "$res" > /verif/$sd/caught.json
   echo "$id done: $(python3 -c "import json;d=json.load(open('/verif/$sd/caught.json'));print([k for k,v in d.items() if v['rc']!=0])")"
+  # the fact set of this scratch tree is of no further use: drop it (a full run would otherwise leave ~40 MB per patch behind)
+  h=$(cd /verif && VERIF_REPO="$S" python3 -c "import sys; sys.path.insert(0, '/verif'); from rules.lib import facts; print(facts.tree_hash())" 2>/dev/null)
+  [ -n "$h" ] && [ ${#h} -eq 20 ] && rm -rf "/verif/.work/facts/$h" "/verif/.work/witness/$h"
   rm -rf "$S"
 }
 export -f run_one
